@@ -176,13 +176,17 @@ def comma_built_list(s, cfg):
         return True
     if any(ch in t for ch in "\"'\\"):
         return None
-    depth = 0
+    stack = []
     for i, ch in enumerate(t):
-        if ch == "[" or (ch == "{" and cfg.get("object", True)):
-            depth += 1
-        elif ch == "]" or (ch == "}" and cfg.get("object", True)):
-            depth -= 1
-            if depth == 0:
+        if ch == "[":
+            stack.append("]")
+        elif ch == "{" and cfg.get("object", True):
+            stack.append("}")
+        elif ch in "]}" and (ch == "]" or cfg.get("object", True)):
+            if not stack or stack[-1] != ch:
+                return None                 # not well nested: the parser's business, this oracle abstains
+            stack.pop()
+            if not stack:
                 return t[i + 1:].strip() != ""
     return None
 
